@@ -76,6 +76,7 @@ type c01Cfg struct {
 	senders, receivers int
 	repeats            int
 	replies            bool
+	doubleClose        bool // close every swarm from two goroutines at once (Close racing Close is concurrent use too)
 	atMostOnce         bool // judge a second delivery of a unique (self-describing) payload: the stack under test must suppress replays
 }
 
@@ -281,7 +282,19 @@ func runLedgerWorkload(r *ev.Run, st *Stack, g *rng.R, caseID string, cfg c01Cfg
 	}
 	cancel()
 	closed := make(chan struct{})
-	go func() { c01worker(func() { st.CloseAll() }); close(closed) }()
+	go func() {
+		c01worker(func() {
+			if cfg.doubleClose {
+				second := make(chan struct{})
+				go func() { defer close(second); st.CloseAll() }()
+				st.CloseAll()
+				<-second
+				return
+			}
+			st.CloseAll()
+		})
+		close(closed)
+	}()
 	if v, _ := gor.WaitParked(closed, "main.c01worker", 10*time.Second, time.Second); v != gor.Returned {
 		r.Count("teardown_blocked", 1) // judged by C12, not here
 	}
